@@ -5,6 +5,9 @@ INVARIANT FilterChangesDepth
 INVARIANT ThresholdMonotone
 INVARIANT KeptHasSupport
 INVARIANT EmitIffTwo
+INVARIANT MinIndBoundary
+INVARIANT ZeroIsVacuous
+INVARIANT MeanFreqSumsToOne
 CONSTRAINT Dump
 CONSTRAINT DumpTh
 CHECK_DEADLOCK FALSE
